@@ -45,6 +45,10 @@ class Stable(Harness):
                 return SymStr([ctx.fresh_char("%s%d" % (h, i), ((ord(ch), ord(ch)), (ord(ch.lower()), ord(ch.lower()))))
                                if ch.isalpha() else ch for i, ch in enumerate(word)])
             return {"x": cased("GROUP", "b"), "y": cased("END_GROUP", "e"), "z": cased("END", "z")}
+        if t == "wrapquote":
+            from ..core import SymInt
+            return {"x": SymStr([ctx.fresh_char("w%d" % i, ((10, 10), (32, 32))) for i in range(n)]),
+                    "width": SymInt(ctx.fresh_int("width", 40, 100))}
         if t in ("empty", "seqUnits", "mixed"):
             return {"x": SymStr([ctx.fresh_char("w%d" % i, ((10, 10), (32, 32))) for i in range(n)])}
         raise KeyError(t)
@@ -81,6 +85,13 @@ class Stable(Harness):
             return "a =" + w(0) + "b = 2" + w(1) + "c =" + w(2) + "GROUP = g" + w(3) + "d =" + w(4) + "END_GROUP" + w(5) + "e =" + w(6) + "END"
         if t == "seqUnits":
             return "a = (1, 2)" + w(0) + "<m>" + w(1) + "b = 3 <km/s>" + w(2) + "c = {1} <K>" + w(3) + "END"
+        if t == "wrapquote":
+            # long sequences / sets of quoted strings that contain the OTHER quote character and ' - ':
+            # the dump must wrap them, and may only do so between elements
+            A = "lorem ip'sum dolor - sit amet"
+            Dq = 'lorem ip"sum dolor - sit amet'
+            return ('k = ("' + A + '",' + w(0) + '"x' + w(1) + "y\", '" + Dq + "', \"lorem ipsum dolor sit amet\", \"" + A +
+                    '")\nj = {\'' + Dq + "', \"" + A + '", "x y"}\nEND\n')
         if t == "mixed":
             return "a = 2#101#" + w(0) + "b = 'x  y'" + w(1) + "c = -16#F#" + w(2) + "d = 1.50" + w(3) + "e = TRUE" + w(4) + "END"
         raise KeyError(t)
@@ -98,7 +109,8 @@ class Stable(Harness):
         except (L.exceptions.LexerError, L.exceptions.ParseError):
             return Outcome("t0-rejected", True, {"t0": t0})
         d = dialect(L, self.encoder)
-        E = d["encoder"]()
+        ekw = {"width": inp["width"]} if "width" in inp else {}      # a SYMBOLIC line width where wrapping is the subject
+        E = d["encoder"](**ekw)
         exp = rt.tree(L, m1, self.encoder, reader="omni")
         try:
             t1 = L.pvl.dumps(m1, encoder=E)
@@ -109,7 +121,7 @@ class Stable(Harness):
         except (L.exceptions.LexerError, L.exceptions.ParseError) as e:
             return Outcome("t1-unreadable", False, {"t0": t0, "t1": t1})
         try:
-            t2 = L.pvl.dumps(m2, encoder=d["encoder"]())
+            t2 = L.pvl.dumps(m2, encoder=d["encoder"](**ekw))
         except (ValueError, TypeError):
             return Outcome("second-dump-refused", False, {"t0": t0, "t1": t1})
         ok = zand([rt.match(m2, exp), str_eq(t1, t2), list(m2.errors) == []])
@@ -131,6 +143,7 @@ def obligations(tier):
         obs.append(Stable(encoder=e, template="empty", n=7))
         obs.append(Stable(encoder=e, template="seqUnits", n=4))
         obs.append(Stable(encoder=e, template="mixed", n=5))
+        obs.append(Stable(encoder=e, template="wrapquote", n=2))
     return obs
 
 
